@@ -179,7 +179,14 @@ func genLockstep(rng *mon.RNG, jump bool, z *zone) []lop {
 	if rng.Chance(5, 6) {
 		ops = append(ops, lop{Kind: "start"})
 	}
+	if (jump || !z.set()) && rng.Chance(1, 3) {
+		ops = append(ops, genBetween(rng)...)
+	}
 	for len(ops) < n {
+		if (jump || !z.set()) && rng.Chance(1, 25) {
+			ops = append(ops, genBetween(rng)...)
+			continue
+		}
 		switch r := rng.Intn(100); {
 		case r < 16:
 			ops = append(ops, lop{Kind: "add", Spec: genSpec(rng)})
@@ -213,6 +220,63 @@ func genLockstep(rng *mon.RNG, jump bool, z *zone) []lop {
 			}
 		}
 	}
+	return ops
+}
+
+// genBetween: the "added between" family. A running Cron holds a near entry
+// (1-3 s) and a far one (30 min / 1 h / daily); one or two entries are added
+// whose first activation lies strictly between the head's and the far one's,
+// followed DIRECTLY by a clock advance past both the head's and the new entry's
+// next activation (in jump mode: one step, one wake-up): just past it, exactly
+// onto it, or past several of its activations. Nothing in between re-sorts the
+// scheduler's entry list.
+func genBetween(rng *mon.RNG) []lop {
+	via := func() string { return rng.PickStr("schedule", "addfunc") }
+	nearP := rng.PickInt(1, 1, 2, 3)
+	near := schedSpec{Every: time.Duration(nearP) * time.Second, Via: via()}
+	if nearP == 1 && rng.Chance(1, 3) {
+		near = schedSpec{Spec: "* * * * * *", Via: via()}
+	}
+	far := schedSpec{Via: via()}
+	switch rng.Intn(5) {
+	case 0:
+		far.Every = 30 * time.Minute
+	case 1:
+		far.Every = time.Hour
+	case 2:
+		far.Spec, far.Zs = "0 0 0 * * *", true
+	case 3:
+		far.Spec, far.Zs = "0 0 * * * *", true
+	default:
+		far.Spec, far.Zs = "0 30 * * * *", true
+	}
+	ops := []lop{{Kind: "start"}, {Kind: "add", Spec: near}, {Kind: "add", Spec: far}}
+	if rng.Bool() {
+		ops[1], ops[2] = ops[2], ops[1]
+	}
+	if rng.Bool() {
+		ops = append(ops, lop{Kind: "sleep", How: "dur", D: time.Duration(rng.Range(1, 400)) * time.Millisecond})
+	}
+	var midP int
+	for k := rng.PickInt(1, 1, 2); k > 0; k-- {
+		midP = nearP + rng.PickInt(1, 2, 4, 9, 44)
+		ops = append(ops, lop{Kind: "add", Spec: schedSpec{Every: time.Duration(midP) * time.Second, Via: via(), Block: rng.Chance(1, 8)}})
+		if rng.Chance(1, 4) {
+			ops = append(ops, lop{Kind: "entries"}) // a snapshot does not re-sort either
+		}
+	}
+	switch rng.Intn(4) {
+	case 0: // exactly onto the new entry's activation (past the head's)
+		ops = append(ops, lop{Kind: "sleep", How: "exact-last"})
+	case 1: // just past it
+		ops = append(ops, lop{Kind: "sleep", How: "past-last", D: time.Duration(rng.Range(1, 900)) * time.Millisecond})
+	case 2: // past several activations of the new entry
+		ops = append(ops, lop{Kind: "sleep", How: "dur", D: time.Duration(midP*rng.Range(2, 4))*time.Second + time.Duration(rng.Range(0, 999))*time.Millisecond})
+	default:
+		ops = append(ops, lop{Kind: "sleep", How: "dur", D: time.Duration(midP)*time.Second + time.Duration(rng.Range(0, 999))*time.Millisecond})
+	}
+	// the step after it (the mutant's late start would land here)
+	ops = append(ops, lop{Kind: "sleep", How: "dur", D: time.Duration(rng.Range(100, 900)) * time.Millisecond}, lop{Kind: "entries"})
 	return ops
 }
 
@@ -334,6 +398,10 @@ type lockstep struct {
 	m    *refModel
 	jump bool
 	last string
+	// entries added while running strictly between the head's and a farther
+	// entry's next activation, with nothing since that re-sorts the scheduler's list
+	between []*rEnt
+	lastAdd *rEnt
 }
 
 func (ls *lockstep) pick(k int) (*ent, cron.EntryID) {
@@ -350,9 +418,30 @@ func (ls *lockstep) pick(k int) (*ent, cron.EntryID) {
 func (ls *lockstep) do(o lop) {
 	w, m := ls.w, ls.m
 	switch o.Kind {
+	case "rm", "start", "stop", "restart":
+		ls.between = nil
+	}
+	switch o.Kind {
 	case "add":
+		head := m.minNext()
 		r := w.add(0, o.Spec)
 		m.add(r.e, r.at)
+		re := m.ents[len(m.ents)-1]
+		ls.lastAdd = re
+		farther := false
+		for _, x := range m.ents {
+			if x != re && !x.next.IsZero() && x.next.After(re.next) {
+				farther = true
+			}
+		}
+		switch {
+		case m.running && !head.IsZero() && re.next.After(head) && farther:
+			ls.between = append(ls.between, re)
+		case m.running && !head.IsZero() && re.next.After(head):
+			// appended behind everything: sorted by accident, still pending
+		default:
+			ls.between = nil // the scheduler re-sorts
+		}
 	case "rm":
 		e, id := ls.pick(o.K)
 		w.remove(0, e, id)
@@ -399,6 +488,12 @@ func (ls *lockstep) do(o lop) {
 		case "past":
 			if !n.IsZero() {
 				d += n.Sub(now)
+			}
+		case "exact-last", "past-last":
+			if ls.lastAdd != nil && m.running && ls.lastAdd.next.After(now) {
+				d += ls.lastAdd.next.Sub(now)
+			} else if d <= 0 {
+				d = time.Second
 			}
 		}
 		if d <= 0 {
